@@ -627,6 +627,20 @@ def run_special(spec, rec):
             rec.violation('legacy-profile-accepted', {'profile': 'old_pharm_h4'}, {})
         except LegacyMessageProfile:
             rec.count('legacy_rejections')
+        # the same profile handed to the parser, whatever its other arguments
+        text = 'MSH|^~\\&|A|B|C|D|20200101||RAS^O17^RAS_O17|1|P|2.5\rPID|1||1||A^B'
+        for kw in ({}, {'find_groups': False}, {'validation_level': 1}, {'validation_level': 2, 'force_validation': True},
+                   {'validation_level': 1, 'find_groups': False}):
+            rec.evaluation(('legacy', 'parse_message', tuple(sorted(kw.items()))))
+            try:
+                parser.parse_message(text, message_profile=legacy, **kw)
+                rec.violation('legacy-profile-accepted', {'profile': 'old_pharm_h4', 'by': 'parse_message', 'kwargs': kw}, {})
+            except LegacyMessageProfile:
+                rec.count('legacy_rejections')
+                rec.count('legacy_rejections_by_the_parser')
+            except Exception as e:
+                rec.violation('legacy-case-raised:%s' % type(e).__name__,
+                              {'profile': 'old_pharm_h4', 'by': 'parse_message', 'kwargs': kw}, {'exc': repr(e)[:200]})
     except Exception as e:
         rec.violation('legacy-case-raised:%s' % type(e).__name__, {'profile': 'old_pharm_h4'}, {'exc': repr(e)[:200]})
     rec.evaluation(('legacy', 'old_pharm_h4_win'))
@@ -698,6 +712,6 @@ def floors(tier, m):
             c.get('datatype_observations', 0) < 300:
         out.append('too few comparisons: %s' % {k: c.get(k) for k in ('identity_comparisons', 'verdict_comparisons',
                                                                         'datatype_observations')})
-    if c.get('legacy_rejections', 0) < 1 or c.get('missing_structure_rejections', 0) < 10:
+    if c.get('legacy_rejections_by_the_parser', 0) < 5 or c.get('legacy_rejections', 0) < 1 or c.get('missing_structure_rejections', 0) < 10:
         out.append('exception clauses barely exercised')
     return out
